@@ -37,9 +37,11 @@ func harnessC19ChangeRoundTrip() {
 		opts = append(opts, WithAutoTimestamp())
 	}
 	if withType {
-		typeName = vStr("entity-type")
-		vAssume(typeName != "")
-		opts = append(opts, WithEntityType(typeName))
+		override := vStr("entity-type")
+		opts = append(opts, WithEntityType(override))
+		if override != "" {
+			typeName = override // an empty override leaves the name derived from the Go type in place
+		}
 	}
 	var msg *ChangeMessage
 	var err error
